@@ -682,7 +682,8 @@ class MacroProgram(ElementProgram):
             return nodes.Text(node)
 
         if node.startswith('<!--?'):
-            return nodes.Text('<!--' + node.lstrip('<!-?'))
+            # Drop the "?" marker only; the comment text is kept as is.
+            return nodes.Text('<!--' + node[5:])
 
         if not self._interpolation[-1]:
             return nodes.Text(node)
